@@ -92,6 +92,12 @@ func (data *Data) CreateDataNode(addr, tcpAddr string) error {
 		}
 	}
 
+	// The meta node's ID can only be shared if no other data node holds it already
+	// (addresses can be changed after creation, so an address match does not imply that).
+	if existingID != 0 && data.DataNode(existingID) != nil {
+		existingID = 0
+	}
+
 	// We didn't find an existing node, so assign it a new node ID
 	if existingID == 0 {
 		data.MaxNodeID++
@@ -274,6 +280,11 @@ func (data *Data) CreateMetaNode(httpAddr, tcpAddr string) error {
 			existingID = n.ID
 			break
 		}
+	}
+
+	// Likewise a data node's ID is shared only if no other meta node holds it already.
+	if existingID != 0 && data.MetaNode(existingID) != nil {
+		existingID = 0
 	}
 
 	// We didn't find and existing data node ID, so assign a new ID
